@@ -683,6 +683,13 @@ pub fn sweep_solo(spec: &SoloSpec, tier: Tier, seed: u64, runs: u64, wall_cap_s:
     sweep_indices(total, wall_cap_s, known, (0, 1), n_threads() as u64, None, |i, stats| run_one(spec, seed, tier, i, runs, stats))
 }
 
+/// the same sweep restricted to run indices <= upto (replay of a violation that depends on what
+/// the process executed before it)
+pub fn sweep_solo_prefix(spec: &SoloSpec, tier: Tier, seed: u64, runs: u64, upto: u64, known: &[KnownFinding]) -> SweepOutcome {
+    let total = (runs + enum_count(spec, tier)).min(upto + 1);
+    sweep_indices(total, 3600.0, known, (0, 1), n_threads() as u64, None, |i, stats| run_one(spec, seed, tier, i, runs, stats))
+}
+
 // ------------------------------------------------------------------------------------------
 // known findings
 
